@@ -8,8 +8,8 @@ META = {
             'unroller written from the property text, compared as strings.',
     'bounds': {
         'quick': 'kernel: size 1..6, base 0..10^5, count 1..10^5, 0<=value<count, both directions, stack depth 0..2; '
-                 'recognition: all strings len<=3 over $ @ - ^ * 0-9 a; pipeline: 12 templates, N,M in 1..3, numbering '
-                 'width 1..3, base 0..20, both directions; maxRepeat 1..7 or none on 8 templates',
+                 'recognition: all strings len<=3 over $ @ - ^ * 0-9 a; pipeline: 18 templates, N,M in 1..3, numbering '
+                 'width 1..3, base 0..20, both directions; maxRepeat 1..7 or none on 13 templates',
         'thorough': 'recognition len<=4; pipeline N,M in 1..4, width 1..4, base 0..1000, maxRepeat 1..12',
     },
     'outside_claim': ['N > 4 in the pipeline (the kernel covers counts to 10^5)', '`@^` parent numbering (not in the '
@@ -171,6 +171,11 @@ TEMPLATES = [
     [E('ea$', 'N', [E('eb$', 'M', [E('ec$')])])],
     [E('ea', 'N', [E('eb', 'M')]), E('ec', 'N')],
     [G('N', [E('ea', 'M'), E('eb')]), E('ec', 'M')],
+    # counters that are resolved AFTER a repeater has finished (or was cut by maxRepeat)
+    [E('ea', 'N'), E('eb$')],
+    [E('ea', 'N', [E('eb', 'M')], 't=v$')],
+    [E('ex', None, [E('ea', 'N')]), E('eb', None, [], None, 'z$')],
+    [G('N', [E('ea')]), E('eb$', 'M'), E('ec$')],
 ]
 
 
@@ -333,7 +338,7 @@ def jobs(tier):
                            'vf.props.c02:mk_pipeline',
                            dict(ti=ti, with_limit=False, nmax=nmax, smax=smax, bmax=bmax, lmax=lmax, nfix=nfix),
                            shape='H', bound='N,M<=%d' % nmax, budget=900 if q else 3000, weight=200))
-        if ti in (0, 1, 3, 4, 6, 7, 11, 12, 13) or not q:
+        if ti in (0, 1, 3, 4, 6, 7, 11, 12, 13, 14, 15, 16, 17) or not q:
             out.append(Job('C02-c/maxRepeat/t%02d' % ti, 'vf.props.c02:mk_pipeline',
                            dict(ti=ti, with_limit=True, nmax=nmax, smax=smax, bmax=bmax, lmax=lmax), shape='H',
                            bound='N,M<=%d, maxRepeat<=%d' % (nmax, lmax), budget=900 if q else 3000, weight=300))
